@@ -1,8 +1,8 @@
 (* Extract.v — OCaml extraction of the executable model (ExtrOcamlBasic only). *)
 From Coq Require Import Extraction ExtrOcamlBasic.
 From AL Require Import Api MutexApi SemApi RwApi OnceApi BarrierApi.
-From AL.Sched Require SemEvSolo MutexEvSolo.
+From AL.Sched Require SemEvSolo MutexEvSolo BarrierEvSolo.
 Extraction Language OCaml.
 
 Extraction "../driver/model.ml" mw0 mstep sw_init sstep rw0 rstep ow0 ostep bw_init bstep
-  SemEvSolo.sw2_init SemEvSolo.sstep2 MutexEvSolo.mw2_init MutexEvSolo.mstep2.
+  SemEvSolo.sw2_init SemEvSolo.sstep2 MutexEvSolo.mw2_init MutexEvSolo.mstep2 BarrierEvSolo.bw2_init BarrierEvSolo.bstep2.
